@@ -255,7 +255,16 @@ class C19(Prop):
             v = spec_check(c, out, objs)
             if v:
                 bads.append(dict(what=v, input=c, finding=None))
-        return dict(evaluations=len(pairs), violations=bads[:10], samples=[{"oracle": "the property's clauses checked directly on the module delete_symbols() leaves"}])
+        # context level: repeated delete_symbol requests with different force flags, deletions next to a modification
+        from harness import ctxlevel
+        rndc = C.rng("c19-ctx" + ("-boost" if boosted else ""))
+        extra = 0
+        for _ in range(2000 if boosted else 400):
+            extra += 1
+            w = ctxlevel.delete_requests(rndc)
+            if w:
+                bads.append(dict(what=w, input="ctxlevel.delete_requests()", finding=None))
+        return dict(evaluations=len(pairs) + extra, violations=bads[:10], samples=[{"oracle": "the property's clauses checked directly on the module delete_symbols() leaves; RewritingContext.delete_symbol request sequences"}])
 
     def replay(self, path):
         import json
